@@ -105,8 +105,9 @@ Proof.
       * destruct H as [H|[H|H]]; try discriminate. apply in_app_iff in H. destruct H as [H|H].
         -- (* done() inside the nested iteration: nothing can follow *)
            pose proof (Hn Hok1 H) as He1.
-           assert (Hm2 : (m2, e2) = (m1 <| should := should (next_state m n) |>, [])) by (apply Hidle; [exact He1 | exact Hok2]).
-           injection Hm2 as -> _. exact He1.
+           assert (Hm2 : (m2, e2) = (if engaged m1 then m1 <| should := should (next_state m n) |> else m1, []))
+             by (apply Hidle; [rewrite He1; exact He1 | exact Hok2]).
+           rewrite He1 in Hm2. injection Hm2 as -> _. exact He1.
         -- apply (IH' Hok2 H).
     + pose proof (run_actions_idle sh nested r (done sh m) (done_engaged sh m)) as Hidle.
       destruct (run_actions sh nested r (done sh m)) as [m' e] eqn:Er. cbn [fst snd] in *.
@@ -162,6 +163,186 @@ Proof.
   induction fuel as [|f IH]; intros m now Ha; cbn [exec].
   - cbn. intros H. exfalso. eapply not_ok_err, H.
   - intros Hok. apply exec_step_done_stops; auto. intros m' now' Hok'. unfold done_stops. apply IH; auto.
+Qed.
+
+(* ------------------------------------------------------------------ *)
+(* The same WITHOUT the usage contract: whatever a state function does after
+   done() -- more transitions, next_state_now(), done() again -- an autonomous
+   machine that has been stopped stays stopped for the rest of the iteration
+   (its done() withdraws the request, and next_state_now() restores the request
+   only while the machine is still executing). *)
+Definition Zst (m : sm) : Prop := engaged m = false /\ should m = false.
+
+Lemma Zst_next_state m n : Zst m -> Zst (next_state m n).
+Proof. intros [H1 H2]. split; [rewrite next_state_engaged | rewrite next_state_should]; assumption. Qed.
+Lemma Zst_done m : sh_auto sh = true -> Zst (done sh m).
+Proof. intros Ha. split; [apply done_engaged | rewrite done_should, Ha; reflexivity]. Qed.
+
+Lemma expire_done_Z m now : sh_auto sh = true ->
+  In EvDone (s_ev (expire sh m now)) ->
+  Zst (s_m (expire sh m now)) /\ s_st (expire sh m now) = None /\ s_done (expire sh m now) = true.
+Proof.
+  intros Ha. unfold expire. repeat break_match; cbn; try tauto; try (intros [H|[]]; discriminate).
+  - exfalso. rewrite done_should, Ha in *. discriminate.
+  - intros _. split; [apply Zst_done, Ha | auto].
+Qed.
+
+Lemma select_done_Z x : sh_auto sh = true ->
+  (In EvDone (s_ev x) -> Zst (s_m x) /\ s_st x = None /\ s_done x = true) ->
+  In EvDone (s_ev (select sh x)) -> Zst (s_m (select sh x)).
+Proof.
+  intros Ha Hx. unfold select, Zst. rewrite fallback_engaged, fallback_should.
+  unfold fallback, stop_if_engaged.
+  destruct (s_st (deactivate sh x)) as [s|] eqn:Est.
+  - cbn. rewrite Est. rewrite deactivate_ev, deactivate_m. intros H. destruct (Hx H) as (_ & Hn & _).
+    rewrite deactivate_st, Hn in Est. discriminate.
+  - destruct (engaged (s_m (deactivate sh x)) && negb (s_done (deactivate sh x))) eqn:Ec;
+      cbn [s_m s_st s_ev set]; rewrite ?Est.
+    + intros _. apply Zst_done, Ha.
+    + rewrite deactivate_m, deactivate_done in *.
+      destruct (sh_default sh) as [d|]; [destruct (is_some_eq (cur (s_m x)) d)|];
+        cbn [s_ev set]; rewrite ?deactivate_ev; rewrite ?in_app_iff; intros H.
+      * apply Hx, H.
+      * destruct H as [H|[H|[]]]; [apply Hx, H | discriminate].
+      * apply Hx, H.
+Qed.
+
+Section StepZ.
+Variable nested : sm -> Z -> sm * list event.
+Hypothesis nested_Z : forall m now, Zst m -> Zst (fst (nested m now)).
+
+Lemma run_actions_Z acts : forall m, sh_auto sh = true -> Zst m -> Zst (fst (run_actions sh nested acts m)).
+Proof.
+  induction acts as [|a r IH]; intros m Ha HZ; cbn [run_actions]; [exact HZ|].
+  destruct a as [n|n now'|].
+  - destruct (is_state sh n); [|exact HZ].
+    specialize (IH (next_state m n) Ha (Zst_next_state m n HZ)).
+    destruct (run_actions sh nested r (next_state m n)). exact IH.
+  - destruct (is_state sh n); [|exact HZ].
+    pose proof (nested_Z (next_state m n) now' (Zst_next_state m n HZ)) as Hn.
+    destruct (nested (next_state m n) now') as [m1 e1]. cbn [fst] in Hn.
+    destruct Hn as [Hn1 Hn2]. rewrite Hn1.
+    specialize (IH m1 Ha (conj Hn1 Hn2)). destruct (run_actions sh nested r m1). exact IH.
+  - specialize (IH (done sh m) Ha (Zst_done m Ha)). destruct (run_actions sh nested r (done sh m)). exact IH.
+Qed.
+
+Lemma exec_step_Z m now : sh_auto sh = true -> Zst m -> Zst (fst (exec_step sh body nested m now)).
+Proof.
+  intros Ha [He Hs]. unfold exec_step.
+  destruct (negb (engaged (m <| clk := now |>)) && negb (should (m <| clk := now |>)) && is_none (sh_default sh));
+    [split; assumption|].
+  set (x := select sh (expire sh (latch (m <| clk := now |>) now) now)).
+  assert (Hex : engaged (s_m x) = false) by (apply select_expire_not_engaged; assumption).
+  destruct (s_st x) as [s|].
+  - pose proof (enter_bk_frame sh (s_m x) s (s_nss x)) as Hf.
+    destruct (enter_bk sh (s_m x) s (s_nss x)) as [[m1 init] bk]. cbn in Hf. destruct Hf as (Hfs & Hfe & _).
+    assert (Hsx : should (s_m x) = false).
+    { destruct (should (s_m x)) eqn:E; auto. unfold x in E. apply select_should_le, expire_should_le in E.
+      rewrite latch_should in E. cbn in E. congruence. }
+    match goal with |- context [run_actions sh nested ?a ?mm] =>
+      pose proof (run_actions_Z a mm Ha) as Hr; destruct (run_actions sh nested a mm) as [m2 e] end.
+    cbn [fst] in *. destruct Hr as [R1 R2]; [split; cbn; congruence|]. split; [exact R1 | reflexivity].
+  - destruct (s_done x); cbn [fst]; split; cbn; auto using done_engaged.
+Qed.
+
+Definition done_stops_any (m' : sm) (ev : list event) : Prop := In EvDone ev -> Zst m'.
+Hypothesis nested_dsa : forall m now, done_stops_any (fst (nested m now)) (snd (nested m now)).
+
+Lemma run_actions_dsa acts : forall m, sh_auto sh = true ->
+  done_stops_any (fst (run_actions sh nested acts m)) (snd (run_actions sh nested acts m)).
+Proof.
+  induction acts as [|a r IH]; intros m Ha; cbn [run_actions]; [intros []|].
+  destruct a as [n|n now'|].
+  - destruct (is_state sh n); [|intros [H|[]]; discriminate].
+    specialize (IH (next_state m n) Ha). destruct (run_actions sh nested r (next_state m n)) as [m' e]. cbn [fst snd] in *.
+    intros H. apply IH. rewrite !in_app_iff in H. destruct H as [H|[H|[H|H]]]; auto; try discriminate.
+    + unfold off_if_idle in H. destruct (engaged m); [destruct H | destruct H as [H|[]]; discriminate].
+    + unfold off_if_default in H. destruct (is_default sh n); [destruct H as [H|[]]; discriminate | destruct H].
+  - destruct (is_state sh n); [|intros [H|[]]; discriminate].
+    pose proof (nested_dsa (next_state m n) now') as Hn.
+    destruct (nested (next_state m n) now') as [m1 e1]. cbn [fst snd] in Hn.
+    match goal with |- context [run_actions sh nested r ?mm] =>
+      pose proof (IH mm Ha) as IH'; pose proof (run_actions_Z r mm Ha) as HZr;
+      destruct (run_actions sh nested r mm) as [m2 e2] eqn:Er end.
+    cbn [fst snd] in *. intros H. rewrite !in_app_iff in H.
+    destruct H as [H|[H|H]].
+    + unfold off_if_idle in H. destruct (engaged m); [destruct H | destruct H as [H|[]]; discriminate].
+    + unfold off_if_default in H. destruct (is_default sh n); [destruct H as [H|[]]; discriminate | destruct H].
+    + destruct H as [H|[H|H]]; try discriminate. apply in_app_iff in H. destruct H as [H|H].
+      * destruct (Hn H) as [Z1 Z2]. apply HZr. rewrite Z1. split; assumption.
+      * apply IH', H.
+  - pose proof (run_actions_Z r (done sh m) Ha (Zst_done m Ha)) as HZ.
+    destruct (run_actions sh nested r (done sh m)) as [m' e]. cbn [fst snd]. intros _. exact HZ.
+Qed.
+
+Lemma exec_step_dsa m now : sh_auto sh = true ->
+  done_stops_any (fst (exec_step sh body nested m now)) (snd (exec_step sh body nested m now)).
+Proof.
+  intros Ha. unfold exec_step.
+  assert (Hbk : forall l, In EvDone ((if now <? clk m then [EvBack] else []) ++ l) -> In EvDone l).
+  { intros l H. apply in_app_iff in H. destruct H as [H|H]; [|exact H].
+    destruct (now <? clk m); [destruct H as [H|[]]; discriminate | destruct H]. }
+  destruct (negb (engaged (m <| clk := now |>)) && negb (should (m <| clk := now |>)) && is_none (sh_default sh)).
+  - cbn [fst snd]. intros H. specialize (Hbk []). rewrite app_nil_r in Hbk. destruct (Hbk H).
+  - set (x0 := expire sh (latch (m <| clk := now |>) now) now).
+    pose proof (select_done_Z x0 Ha (expire_done_Z _ now Ha)) as Hsel.
+    set (x := select sh x0) in *.
+    destruct (s_st x) as [s|] eqn:Est.
+    + pose proof (enter_bk_frame sh (s_m x) s (s_nss x)) as Hf.
+      pose proof (enter_bk_spec sh (s_m x) s (s_nss x)) as Hsp.
+      destruct (enter_bk sh (s_m x) s (s_nss x)) as [[m1 init] bk]. cbn in Hf.
+      destruct Hf as (Hfs & Hfe & _).
+      match goal with |- context [run_actions sh nested ?a ?mm] =>
+        pose proof (run_actions_dsa a mm Ha) as Hr;
+        pose proof (run_actions_Z a mm Ha) as HZr;
+        destruct (run_actions sh nested a mm) as [m2 e] eqn:Er end.
+      cbn [fst snd] in *. intros H. apply Hbk in H.
+      assert (Hfin : Zst m2 -> Zst (m2 <| should := false |>)) by (intros [Z1 _]; split; [exact Z1 | reflexivity]).
+      apply in_app_iff in H. destruct H as [H|H].
+      * apply Hfin, HZr. destruct (Hsel H) as [Z1 Z2]. split; cbn; congruence.
+      * apply in_app_iff in H. destruct H as [H|H].
+        -- exfalso. destruct Hsp as (_ & _ & _ & Hwas & Hnew). destruct (ran (sdat (s_m x) s)).
+           ++ destruct (Hwas eq_refl) as [_ ->]. destruct H.
+           ++ destruct (Hnew eq_refl) as (_ & _ & ->). destruct H as [H|[]]. discriminate.
+        -- destruct H as [H|H]; [discriminate|]. apply Hfin, Hr, H.
+    + destruct (s_done x) eqn:Esd; cbn [fst snd]; intros H; apply Hbk in H.
+      * rewrite app_nil_r in H. destruct (Hsel H) as [Z1 Z2]. split; [exact Z1 | reflexivity].
+      * split; [cbn; apply done_engaged | reflexivity].
+Qed.
+End StepZ.
+
+Lemma exec_Z fuel : forall m now, sh_auto sh = true -> Zst m -> Zst (fst (exec sh body fuel m now)).
+Proof.
+  induction fuel as [|f IH]; intros m now Ha HZ; cbn [exec]; [exact HZ|].
+  apply exec_step_Z; auto.
+Qed.
+
+(* for EVERY user code (no contract): once done() is invoked in an iteration of an
+   autonomous machine, the iteration ends with the machine stopped and unrequested *)
+Theorem exec_done_stops_any fuel : forall m now, sh_auto sh = true ->
+  In EvDone (snd (exec sh body fuel m now)) ->
+  engaged (fst (exec sh body fuel m now)) = false /\ should (fst (exec sh body fuel m now)) = false.
+Proof.
+  induction fuel as [|f IH]; intros m now Ha; cbn [exec].
+  - cbn. intros [H|[]]. discriminate.
+  - apply exec_step_dsa; auto.
+    + intros m' now' HZ. apply exec_Z; assumption.
+    + intros m' now'. unfold done_stops_any, Zst. apply IH, Ha.
+Qed.
+
+Theorem auto_done_latches_off_any fuel m now : sh_auto sh = true -> auto_on m = true ->
+  In EvDone (snd (step sh body fuel m (AOnIteration now))) ->
+  let m' := fst (step sh body fuel m (AOnIteration now)) in
+  auto_on m' = false /\ engaged m' = false.
+Proof.
+  intros Ha Hon. cbn [step]. rewrite Hon.
+  assert (He1 : ~ In EvDone (snd (engage sh m None false))).
+  { unfold engage. repeat break_match; cbn; intros H; repeat (destruct H as [H|H]; try discriminate); auto. }
+  destruct (engage sh m None false) as [m1 e1]. cbn [snd] in He1.
+  pose proof (exec_done_stops_any fuel m1 now Ha) as Hx.
+  destruct (exec sh body fuel m1 now) as [m2 e2]. cbn [fst snd] in *.
+  intros H. apply in_app_iff in H. destruct H as [H|H]; [contradiction|].
+  destruct (Hx H) as [Z1 _]. cbn. auto.
 Qed.
 
 (* the latch follows is_executing, so: done() anywhere in an on_iteration => latch off *)
